@@ -7,12 +7,13 @@ import (
 )
 
 // C14 (a lost session whose target has stopped reading): two facts about internal/server/communicator.go.
-//   carrierWriteFailureEndsSession — the object HandleConnection hands to smux.Server is of a type declared in the
-//     package whose Write method, in its `if err != nil` branch, closes a multiplexer session, and HandleConnection
-//     tells that object which session (a call of its `watch` method with `ch.session`);
-//   handlerReleasesTargetOnSessionEnd — acceptStream closes the handler's `ended` channel when it returns
-//     (`defer close(ch.ended)`, the channel made in HandleConnection before the session starts), and muxHandler starts
-//     a goroutine that closes the target connection when a receive from `ch.ended` succeeds.
+//
+//	carrierWriteFailureEndsSession — the object HandleConnection hands to smux.Server is of a type declared in the
+//	  package whose Write method, in its `if err != nil` branch, closes a multiplexer session, and HandleConnection
+//	  tells that object which session (a call of its `watch` method with `ch.session`);
+//	handlerReleasesTargetOnSessionEnd — acceptStream closes the handler's `ended` channel when it returns
+//	  (`defer close(ch.ended)`, the channel made in HandleConnection before the session starts), and muxHandler starts
+//	  a goroutine that closes the target connection when a receive from `ch.ended` succeeds.
 func init() {
 	extractors = append(extractors, func(o *out) {
 		b := o.w("C14Stall.lean")
